@@ -29,7 +29,7 @@ ASSUMPTIONS = [
     "a character's wire cost is its UTF-8 length, 2 for NUL and 0x10 (low-level quoting) - used only to decide whether "
     "a limit is satisfiable at all, never for the verdict on a line",
 ]
-MIN = {"quick": {"evaluations": 300000, "nontrivial": 100000, "outcomes": 6},
+MIN = {"quick": {"evaluations": 350000, "nontrivial": 125000, "outcomes": 6},
        "thorough": {"evaluations": 3000000, "nontrivial": 1000000, "outcomes": 6}}
 
 LONGW = "0123456789AB"
